@@ -60,6 +60,22 @@ Theorem C09_version_info_walk_fix_conservative :
     walk_fixed read fuel offset end_ = walk_pinned read fuel offset end_.
 Proof. exact walk_fixed_eq_pinned. Qed.
 
+(* module/dotnet.rs TablesData::finalize: with the repaired bound the method ranges never index past the method
+   table, for any TypeDef.MethodList values; the pinned loop did (finding C09-dotnet-method-range, repaired in /repo) *)
+Theorem C09_dotnet_method_ranges_no_panic :
+  forall classes_rev last len, finalize_methods true classes_rev last len <> Panic.
+Proof. exact finalize_methods_fixed_no_panic. Qed.
+
+Theorem C09_dotnet_method_ranges_pinned_refuted :
+  finalize_methods false [Some 1000; Some 5] 29 29 = Panic.
+Proof. exact finalize_methods_pinned_refuted. Qed.
+
+Theorem C09_dotnet_method_ranges_fix_conservative :
+  forall classes_rev last len,
+    last <= len -> Forall (fun o => match o with Some idx => idx <= len | None => True end) classes_rev ->
+    finalize_methods true classes_rev last len = finalize_methods false classes_rev last len.
+Proof. exact finalize_methods_fix_conservative. Qed.
+
 (* non-vacuity: a section table on which the unchecked subtraction is actually exercised, and the hypothesis of the
    last theorem is satisfiable *)
 Example C09_entrypoint_example :
@@ -87,3 +103,6 @@ Print Assumptions C09_max_section_file_offset_no_panic.
 Print Assumptions C09_version_info_walk_terminates.
 Print Assumptions C09_version_info_walk_pinned_refuted.
 Print Assumptions C09_version_info_walk_fix_conservative.
+Print Assumptions C09_dotnet_method_ranges_no_panic.
+Print Assumptions C09_dotnet_method_ranges_pinned_refuted.
+Print Assumptions C09_dotnet_method_ranges_fix_conservative.
